@@ -824,6 +824,11 @@ class Prefix:
         if degree == 0:
             return IdentityPrefix
 
+        if self.exponent % 1 != 0:
+            # combining prefixes of different bases already produced a fractional
+            # exponent, and such a prefix has a root of every degree
+            return Prefix(self.base, self.exponent / degree)
+
         if self.exponent // degree != self.exponent / degree:
             raise FractionalDimensionError(degree, self)
 
